@@ -105,6 +105,77 @@ func factsC16() {
 	addBool("c16GatewayWritesEveryListed", writesEvery, "gateway.go createBackend: the loop over backends[i].epready adds one server per listed endpoint (one AddEndpoint call, no if/continue/break in its body)")
 	addBool("c16BlueGreenDrainSkip", has(cmps, "ep.Weight == 0"), "backend.go buildBackendBlueGreenBalance tests `ep.Weight == 0` (draining endpoint: skipped)")
 	addStr("c16BlueGreenPodMode", one(c16PodLits(), "blue/green pod mode literal"), "backend.go buildBackendBlueGreenBalance: `mode.Value == <lit>` stops before the rebalance")
+	commaOk, eq := c16LabelMatch()
+	addBool("c16BlueGreenMatchCommaOk", commaOk, "backend.go buildBackendBlueGreenBalance: the pod's label is read ONLY by a comma-ok lookup `label, found := pod.Labels[dw.labelName]` in the init of an `if` whose condition is `found` (an absent label is not the empty value)")
+	addBool("c16BlueGreenMatchEq", eq, "backend.go buildBackendBlueGreenBalance: inside that `if found` the first statement is `if label == dw.labelValue` and the endpoint is appended to the group (dw.endpoints = append(dw.endpoints, ep)) only there")
+}
+
+// c16LabelMatch: the matching condition of buildBackendBlueGreenBalance (model: bgLabelMatch).
+//
+//	commaOk: every index expression on `pod.Labels` in the function is the single right-hand side of a
+//	         two-valued short declaration `<label>, <found> := pod.Labels[dw.labelName]` that is the Init of an
+//	         IfStmt whose Cond is the identifier <found> (no else), and there is exactly one such statement;
+//	eq:      the body of that IfStmt is one IfStmt with Cond `<label> == dw.labelValue` (either order, no else),
+//	         and every `append(dw.endpoints, ...)` of the function sits inside the body of that inner IfStmt.
+func c16LabelMatch() (commaOk, eq bool) {
+	fd := methodDecl("pkg/converters/ingress/annotations/backend.go", "updater", "buildBackendBlueGreenBalance")
+	isLabels := func(e ast.Expr) bool {
+		ix, ok := e.(*ast.IndexExpr)
+		return ok && exprString(ix.X) == "pod.Labels"
+	}
+	// all index expressions on pod.Labels, and the ones in comma-ok position
+	total, guarded := 0, 0
+	var inner *ast.IfStmt
+	ast.Inspect(fd.Body, func(x ast.Node) bool {
+		if e, ok := x.(ast.Expr); ok && isLabels(e) {
+			total++
+		}
+		ifs, ok := x.(*ast.IfStmt)
+		if !ok || ifs.Init == nil || ifs.Else != nil {
+			return true
+		}
+		as, ok := ifs.Init.(*ast.AssignStmt)
+		if !ok || as.Tok != token.DEFINE || len(as.Lhs) != 2 || len(as.Rhs) != 1 || !isLabels(as.Rhs[0]) {
+			return true
+		}
+		if exprString(as.Rhs[0].(*ast.IndexExpr).Index) != "dw.labelName" {
+			return true
+		}
+		label, found := exprString(as.Lhs[0]), exprString(as.Lhs[1])
+		if c, ok := ifs.Cond.(*ast.Ident); !ok || c.Name != found || found == "_" || label == "_" {
+			return true
+		}
+		guarded++
+		if len(ifs.Body.List) == 1 {
+			if in, ok := ifs.Body.List[0].(*ast.IfStmt); ok && in.Init == nil && in.Else == nil {
+				if b, ok := in.Cond.(*ast.BinaryExpr); ok && b.Op == token.EQL {
+					l, r := exprString(b.X), exprString(b.Y)
+					if (l == label && r == "dw.labelValue") || (r == label && l == "dw.labelValue") {
+						inner = in
+					}
+				}
+			}
+		}
+		return true
+	})
+	commaOk = total == 1 && guarded == 1
+	if inner == nil {
+		return commaOk, false
+	}
+	// every append to dw.endpoints of the function is inside the inner if
+	appends := func(n ast.Node) int {
+		k := 0
+		ast.Inspect(n, func(x ast.Node) bool {
+			if c, ok := x.(*ast.CallExpr); ok && exprString(c.Fun) == "append" && len(c.Args) >= 1 && exprString(c.Args[0]) == "dw.endpoints" {
+				k++
+			}
+			return true
+		})
+		return k
+	}
+	all, in := appends(fd.Body), appends(inner.Body)
+	eq = commaOk && all >= 1 && all == in
+	return commaOk, eq
 }
 
 // c16PodLits: string literals compared with mode.Value by `==`
